@@ -173,7 +173,12 @@ def main(argv):
     # ---------------- Kani groups ----------------
     kres = None
     kani_checks = kani_passed = 0
-    if pr.get("kani_groups"):
+    skipped_kani = False
+    if pr.get("kani_groups") and failed and not infra and os.environ.get("VERIF_FAILFAST", "1") != "0" and not only_harness:
+        # a violation is already established by a refuted Verus obligation: the (expensive, bounded) Kani groups cannot
+        # change the verdict and are skipped; VERIF_FAILFAST=0 runs them anyway
+        skipped_kani = True
+    elif pr.get("kani_groups"):
         try:
             kres = kanilib.run_groups(prop, pr["kani_groups"], tier if not only_harness else "thorough", os.path.join(work, "kani"), only_harness=only_harness)
         except vxlib.Infra as e:
@@ -266,6 +271,7 @@ def main(argv):
         "bounded_kani_checks": kani_checks,
         "bounded_kani_checks_passed": kani_passed,
         "bounded_kani_harnesses": len(kres["harnesses"]) if kres else 0,
+        "kani_skipped_fail_fast": skipped_kani,
         "bounded_note": "Kani/CBMC checks are bounded stand-ins; for a proof-level claim they are listed here and under `kani`, and are NOT counted in obligations/discharged" if pr["level"] == "proof" else "",
         "kani": kres["harnesses"] if kres else [],
         "type_probes": tres["summary"] if tres else None,
